@@ -7,7 +7,7 @@ import FlexModel.Sec.Store
 namespace FlexModel.Sec
 
 inductive Signer where
-  | digest (h : Nat) | certs (cs : List Cert) | selfS
+  | digest (h : Nat) | certs (cs : List Cert) | selfS      -- selfS: `self` or an unrecognised extension alternative
   deriving DecidableEq, Repr, Inhabited
 
 /-- abstract EtsiTs103097Data-Signed; `sigBy` = key under which the signature really verifies over the re-encoded
@@ -26,7 +26,27 @@ structure Msg where
   sigFmtOk : Bool                 -- ecdsaNistP256Signature with x-only r (else verify_with_pk raises ValueError)
   sigBy : Option Nat
   payload : Nat
+  sig : Nat := 0                  -- identity of the signature VALUE (r, s) as received; not read by the verify path
   deriving DecidableEq, Repr, Inhabited
+
+/-- the signed content (ToBeSignedData = payload + headerInfo) of a message: everything the signature covers.
+    `Msg.sigBy` is the key under which the signature value `Msg.sig` verifies over `Msg.tbs` -/
+structure Tbs where
+  psid : Nat
+  genTime : Option Nat
+  genLoc : Bool
+  p2pcdLearn : Bool
+  missingCrl : Bool
+  expiry : Bool
+  encKey : Bool
+  inlineReq : Option (List Nat)
+  reqCert : Option Cert
+  payload : Nat
+  deriving DecidableEq, Repr, Inhabited
+
+def Msg.tbs (m : Msg) : Tbs :=
+  { psid := m.psid, genTime := m.genTime, genLoc := m.genLoc, p2pcdLearn := m.p2pcdLearn, missingCrl := m.missingCrl,
+    expiry := m.expiry, encKey := m.encKey, inlineReq := m.inlineReq, reqCert := m.reqCert, payload := m.payload }
 
 inductive Report where
   | success | falseSignature | invalidCertificate | revokedCertificate | inconsistentChain | invalidTimestamp
@@ -45,8 +65,12 @@ structure Station where
   hasSign : Bool := true          -- VerifyService.sign_service is not None
   unknownAts : List Nat := []
   requestedAts : List Nat := []
-  lastFull : Nat := 0             -- cam_handler.last_signer_full_certificate_time, ms
+  lastFull : Nat := 0             -- cam_handler.last_signer_full_certificate_time, ms (most recent inclusion, any ticket)
   reqOwn : Bool := false          -- cam_handler.requested_own_certificate
+  perTicket : Bool := true        -- variant (C05-F2): true = inclusion timer and pending requests kept PER TICKET
+                                  -- (repaired code); false = one timer and one flag for all tickets (code before)
+  lastOf : List (Nat × Nat) := [] -- cam_handler.last_full_certificate_time_of: HashedId8 ↦ ms   (perTicket only)
+  owed : List Nat := []           -- cam_handler.certificate_owed_by, a set of HashedId8          (perTicket only)
   deriving DecidableEq, Repr, Inhabited
 
 structure VOut where
@@ -59,17 +83,28 @@ open Store
 
 namespace Station
 
-/-- `notify_unknown_at` -/
+/-- set union into `certificate_owed_by` -/
+def addOwed (owed ids : List Nat) : List Nat := ids.foldl (fun o x => if o.contains x then o else o ++ [x]) owed
+
+/-- `request_own_certificate`: the given own tickets include their certificate in their next CAM/VAM
+    (code before C05-F2: the single flag) -/
+def requestOwn (S : Station) (ids : List Nat) : Station :=
+  if S.perTicket then { S with reqOwn := true, owed := addOwed S.owed ids } else { S with reqOwn := true }
+
+def ownIds (S : Station) : List Nat := S.store.own.map (·.c.id)
+
+/-- `notify_unknown_at`: every own ticket owes its certificate to the new neighbour -/
 def notifyUnknown (S : Station) (h8 : Nat) : Station :=
   let x := h3 h8
-  { S with unknownAts := if S.unknownAts.contains x then S.unknownAts else S.unknownAts ++ [x], reqOwn := true }
+  ({ S with unknownAts := if S.unknownAts.contains x then S.unknownAts else S.unknownAts ++ [x] }).requestOwn S.ownIds
 
 def addRequested (S : Station) (x : Nat) : Station :=
   if (caByH3 S.store x).isSome && !S.requestedAts.contains x then { S with requestedAts := S.requestedAts ++ [x] } else S
 
 /-- `notify_inline_p2pcd_request` -/
 def notifyInline (S : Station) (reqs : List Nat) : Station :=
-  let S1 := if S.store.own.any (fun o => reqs.contains (h3 o.c.id)) then { S with reqOwn := true } else S
+  let S1 := if S.store.own.any (fun o => reqs.contains (h3 o.c.id)) then
+      S.requestOwn ((S.store.own.filter (fun o => reqs.contains (h3 o.c.id))).map (·.c.id)) else S
   reqs.foldl addRequested S1
 
 /-- `notify_received_ca_certificate`: the certificate object is built WITHOUT an attached issuer -/
